@@ -605,3 +605,24 @@ package fr
 //@ ensures (result == 0) == (frpow(*z, 6554484396890773809930967563523245729654577946720285125893201653364843836400) == fr_zero)
 //@ ensures (result == 1) == (frpow(*z, 6554484396890773809930967563523245729654577946720285125893201653364843836400) == fr_one)
 //@ ensures result == 0 || result == 1 || result == 0 - 1
+
+// ---- square root (C15), field view: Tonelli-Shanks with e = 5; partial correctness (termination of the search loops not proved).
+// (r-1)/2 = 16*(2*E+1) for the exponent E = (s-1)/2 the code passes to Exp; root invariant y*y == x*b; order invariants
+// b^(2^(r-1)) == 1, g^(2^(r-1)) == -1 keep the counter m below r (so m == 0 really means b == 1).
+//@ pkginvlocal _bSqrtExponentElement != nil && *_bSqrtExponentElement == 204827637402836681560342736360101429051705560835008910184162551667651369887
+//@ func Element.Sqrt
+//@ props C15
+//@ view opaque
+//@ prelude field frpowdecl frpowlaws frmlimb frsqrt
+//@ let X = *x
+//@ let Z0 = *z
+//@ ensures (result == nil) == (frpow(X, 6554484396890773809930967563523245729654577946720285125893201653364843836400) != fr_zero && frpow(X, 6554484396890773809930967563523245729654577946720285125893201653364843836400) != fr_one)
+//@ ensures result != nil ==> result == z
+//@ ensures result == nil ==> *z == Z0
+//@ ensures frpow(X, 6554484396890773809930967563523245729654577946720285125893201653364843836400) == fr_zero ==> *z == fr_zero
+//@ ensures frpow(X, 6554484396890773809930967563523245729654577946720285125893201653364843836400) == fr_one ==> *z * *z == X
+//@ modifies *z
+//@ loop 0 invariant i <= 4 && b == frpow(X, 409655274805673363120685472720202858103411121670017820368325103335302739775) && y * y == X * b && *z == Z0 && t == frsqn(b, i) && frsqn(g, 4) == fr_neg(fr_one) && (i == 0 ==> t == frpow(X, 409655274805673363120685472720202858103411121670017820368325103335302739775)) && (i == 1 ==> t == frpow(X, 819310549611346726241370945440405716206822243340035640736650206670605479550)) && (i == 2 ==> t == frpow(X, 1638621099222693452482741890880811432413644486680071281473300413341210959100)) && (i == 3 ==> t == frpow(X, 3277242198445386904965483781761622864827288973360142562946600826682421918200)) && (i == 4 ==> t == frpow(X, 6554484396890773809930967563523245729654577946720285125893201653364843836400))
+//@ loop 1 invariant y * y == X * b && frpow(X, 6554484396890773809930967563523245729654577946720285125893201653364843836400) == fr_one && *z == Z0 && 1 <= r && r <= 5 && frsqn(b, r - 1) == fr_one && frsqn(g, r - 1) == fr_neg(fr_one)
+//@ loop 2 invariant y * y == X * b && frpow(X, 6554484396890773809930967563523245729654577946720285125893201653364843836400) == fr_one && *z == Z0 && 1 <= r && r <= 5 && frsqn(b, r - 1) == fr_one && frsqn(g, r - 1) == fr_neg(fr_one) && m <= r - 1 && t == frsqn(b, m) && (m >= 1 ==> frsqn(b, m - 1) != fr_one)
+//@ loop 3 invariant y * y == X * b && frpow(X, 6554484396890773809930967563523245729654577946720285125893201653364843836400) == fr_one && *z == Z0 && 1 <= r && r <= 5 && frsqn(b, r - 1) == fr_one && frsqn(g, r - 1) == fr_neg(fr_one) && 1 <= m && m <= r - 1 && frsqn(b, m) == fr_one && frsqn(b, m - 1) == fr_neg(fr_one) && 0 <= ge && ge <= r - m - 1 && t == frsqn(g, r - m - 1 - ge)
